@@ -7,15 +7,13 @@
 package vx
 
 import (
-	"encoding/json"
 	"fmt"
-	"os"
 	"strings"
+	"syscall"
 )
 
 type replayFile struct {
-	Label string            `json:"label"`
-	Model map[string]uint64 `json:"model"`
+	Model map[string]uint64
 }
 
 var (
@@ -29,21 +27,34 @@ var (
 // assumption (the counterexample does not apply natively).
 type AssumeFailed struct{}
 
+// load reads the model from $VX_MODEL ("name\x1fvalue\x1ename\x1fvalue...").
+// It deliberately uses nothing but package syscall: harnesses stub functions
+// of os, encoding/json, strconv ... and those stubs are active natively too.
 func load() {
 	if replay != nil {
 		return
 	}
 	replay = &replayFile{Model: map[string]uint64{}}
-	p := os.Getenv("VX_REPLAY")
-	if p == "" {
-		return
-	}
-	b, err := os.ReadFile(p)
-	if err != nil {
-		panic(err)
-	}
-	if err = json.Unmarshal(b, replay); err != nil {
-		panic(err)
+	env, _ := syscall.Getenv("VX_MODEL")
+	start := 0
+	for i := 0; i <= len(env); i++ {
+		if i < len(env) && env[i] != 0x1e {
+			continue
+		}
+		rec := env[start:i]
+		start = i + 1
+		for j := 0; j < len(rec); j++ {
+			if rec[j] == 0x1f {
+				var v uint64
+				for _, c := range []byte(rec[j+1:]) {
+					if c >= '0' && c <= '9' {
+						v = v*10 + uint64(c-'0')
+					}
+				}
+				replay.Model[rec[:j]] = v
+				break
+			}
+		}
 	}
 }
 
@@ -153,7 +164,7 @@ func LazyTypeMismatches() int { return 0 }
 func LazyAny(maxKeys int) any { return nil }
 
 // Thorough reports whether the thorough tier is running.
-func Thorough() bool { return os.Getenv("VERIF_TIER") == "thorough" }
+func Thorough() bool { t, _ := syscall.Getenv("VERIF_TIER"); return t == "thorough" }
 
 // Symbolic reports whether the harness runs under the engine.
 func Symbolic() bool { return false }
